@@ -10,15 +10,15 @@ META = {
             'C17 theorems, dynamic path for every claim order (single counter and per-L3-group counters), adaptive path for every claim/steal '
             'schedule under the explicit no-wrap hypothesis on the 64-bit stripe cursors.  C12_refuted: uint64 range ending at 2^64-1, adaptive: '
             'the cursor wraps and indices outside the range are handed to the body (reproduced on the real code).  C12_holds_except states the '
-            'property on the complement of the two finding domains (Gallina predicates c12_wrap_domain, c12_narrow_domain).',
+            'property on the complement of the finding domains (Gallina predicates c12_wrap_domain, c12_narrow_domain, c12_chunkovf_domain).',
     'note': 'Trusted: Coq kernel; tools/translate.py + clang AST for the leaves; harness/h_parfor.cpp; the hand-written glue (pf_mode, pf_dyncfg, '
             'pf_scfg, stripe_end, claim, worker loops) is tied by the differential run only.  "All invocations have returned when parallel_for / '
             'wait() returns" is C02; here: completeness of a schedule = every worker has left its loop.',
 }
 
 ASSUMPTIONS = [
-    'domain: start,end in the index type, size + 64*(N+1) + granularity < 2^63, size <= kmax for signed index types, explicit chunk >= 1, '
-    'pool threads N < 2^31, options are uint32 values',
+    'domain (pf_dom): start,end in the index type, 2*size + 64*(N+1) + granularity + 1 < 2^63, size <= kmax for int32/int64, explicit chunk in '
+    '[1, kmax), pool threads N < 2^31, options are uint32 values; size + explicit chunk < 2^63 (beyond: finding explicit-chunk-overflow-64bit)',
     'a schedule is complete when every worker has left its claim loop (task-set completion is C02)',
     'adaptive path: the victim returned by pickStripeFromMasks is an oracle (any stripe non-empty at init); all event lists are quantified',
     'nested parallel_for (isParForRecursive) takes the serial branch f(start,end); nesting is not a parameter of the model',
@@ -30,7 +30,9 @@ WITNESS_WRAP = {'kn': 7, 's': (1 << 64) - 101, 'e': (1 << 64) - 1, 'mode': 'a', 
 WITNESS_WRAP5 = dict(WITNESS_WRAP, N=4, minItems=1)       # the schedule-dependent original (5 workers, chunk 1)
 WITNESS_NARROW = {'kn': 0, 's': -128, 'e': 127, 'mode': 'a', 'chunk': 0, 'N': 1, 'maxT': (1 << 31) - 1, 'minItems': 85, 'g': 1, 'wait': 1,
                   'rdv': 0, 'reuse': 0}
-KEYS = {11: 'adaptive-cursor-wrap-64bit', 12: 'adaptive-chunksize-narrowing'}
+WITNESS_CHUNKOVF = {'kn': 7, 's': 0, 'e': 100, 'mode': 'c', 'chunk': (1 << 64) - 50, 'N': 4, 'maxT': (1 << 31) - 1, 'minItems': 1, 'g': 1,
+                    'wait': 1, 'rdv': 0, 'reuse': 0}
+KEYS = {11: 'adaptive-cursor-wrap-64bit', 12: 'adaptive-chunksize-narrowing', 13: 'explicit-chunk-overflow-64bit'}
 
 
 def report(ctx, c, res, v, hist, tag=''):
@@ -57,13 +59,13 @@ def run(ctx):
         ctx.broken.append('translator: ' + str(rep)[:500])
     ctx.cov['translator_report'] = rep
     ctx.phase('translate')
-    ctx.prove(tie_files=['GenTie/ChunkGenTie.v'], models=['Model/C12Check.v', 'Model/C13Check.v', 'Base/Corr.v'])
+    ctx.prove(tie_files=['GenTie/ChunkGenTie.v', 'GenTie/DynGenTie.v'], models=['Model/C12Check.v', 'Model/C13Check.v', 'Base/Corr.v'])
     exe = pf_common.harness()
     l3 = pf_common.machine_l3(exe)
     ctx.cov['machine_l3_groups'] = l3
     hist = {}
     # 1. known-finding witnesses
-    wit = [WITNESS_WRAP, WITNESS_WRAP5, WITNESS_NARROW]
+    wit = [WITNESS_WRAP, WITNESS_WRAP5, WITNESS_NARROW, WITNESS_CHUNKOVF]
     wres = pf_common.run_pf_cases(exe, wit)
     wv = pf_common.judge_pf(ctx, 'wit', 'judge_c12', wit, wres, l3)
     if wv is None:
@@ -73,7 +75,7 @@ def run(ctx):
         report(ctx, c, r, v, hist, ' witness')
     ctx.cov['witness_verdicts'] = wv
     # 2. generated cases
-    n = 900 if ctx.quick else 20000
+    n = 700 if ctx.quick else 20000
     cases = pf_common.gen_pf_cases(ctx, n, big_pool_every=0 if ctx.quick else 50)
     cases += pf_common.gen_pf_fullrange_cases(ctx, 40 if ctx.quick else 600)
     if not ctx.quick:                     # all (start, end) pairs of uint8 x modes, 4-thread pool
@@ -101,7 +103,8 @@ def run(ctx):
                        'Non-trivial = more than one body invocation; distinct = distinct input tuples')
     ctx.cov['verdict_histogram'] = {'agree_and_partition': hist.get(0, 0), 'partition_but_differs_from_model': hist.get(1, 0),
                                     'not_a_partition': hist.get(2, 0), 'not_a_partition_known_cursor_wrap': hist.get(11, 0),
-                                    'not_a_partition_known_chunk_narrowing': hist.get(12, 0)}
+                                    'not_a_partition_known_chunk_narrowing': hist.get(12, 0),
+                                    'not_a_partition_known_explicit_chunk_overflow': hist.get(13, 0)}
     ctx.cov['cases_by_mode_wait'] = modes
     ctx.cov['traces_validated_against_impl'] += hist.get(0, 0)
     for i in (len(cases) // 3, len(cases) // 2):
